@@ -388,8 +388,19 @@ Definition txn_block (cd : Z) (t : N) (b : block) (o : top) : block :=
   match fst (txn cd t b o) with Some b' => b' | None => b end.
 
 (* ------------------------------------------------------------------ client level (driver stream 2) *)
+(* Domain: one IPv4 pool, one host.  Every block of the pool starts claimed by the host (block + affinity).
+   ReleaseAffinity can take a block away from the host: an empty block is deleted, a non-empty one stays as a
+   NON-AFFINE block that is deleted by the release that empties it.  AssignIP on an address whose block does not exist
+   claims the block again (newBlock: SequenceNumber = UnixNano(now) = epoch + t).
+   Histories that contain ReleaseAffinity run with StrictAffinity = true and AutoAllocateBlocks = false (AutoAssign then
+   only uses the blocks the host still owns and reports an error when they do not suffice); other histories run with
+   AutoAllocateBlocks = true and every block owned. *)
 Definition hmap := list (nat * N).             (* block index -> count *)
-Record cstate := { cs_blocks : list block; cs_handles : list (N * hmap) }.
+Record cstate := {
+  cs_blocks : list (option block);             (* None: the block does not exist *)
+  cs_aff : list bool;                          (* the host's affinity for the block exists (and the block names it) *)
+  cs_handles : list (N * hmap)
+}.
 
 Fixpoint hm_inc (m : hmap) (c : nat) (n : N) : hmap :=
   match m with
@@ -432,26 +443,43 @@ Inductive cop :=
 | CAssignIP (h tag : N) (a : nat)
 | CRelease (rs : list req)             (* rq_ord = address offset inside the pool *)
 | CRbh (h : N)
-| CGC (blk : nat).
+| CGC (blk : nat)
+| CRelAff (blk : nat) (must_be_empty : bool).
 
 Inductive cres :=
 | CResIPs (addrs : list nat) (e : err)                   (* AutoAssign *)
-| CResErr (e : err)                                      (* AssignIP / ReleaseByHandle / GarbageCollectColdIPs *)
+| CResErr (e : err)                                      (* AssignIP / ReleaseByHandle / GarbageCollectColdIPs / ReleaseAffinity *)
 | CResRel (unalloc : list nat) (released : list nat) (e : err).    (* ReleaseIPs: not allocated; addresses of the
                                                                    options in blocks that did not fail *)
+
+(* allocationBlock.empty (no Windows reservations in the domain): an ordinal in cooldown still counts as in use *)
+Definition blk_empty (b : block) : bool :=
+  forallb (fun a => match a with None => true | Some _ => false end) (bk_allocs b).
 
 Section Client.
   Variable bs : nat.                 (* addresses per block *)
   Variable rsv : list nat.           (* reserved addresses (pool offsets) *)
+  Variable strict : bool.            (* IPAMConfig.StrictAffinity *)
+  Variable autoalloc : bool.         (* IPAMConfig.AutoAllocateBlocks *)
+  Variable epoch : N.                (* UnixNano of clock reading 0 *)
   Variable cd : Z.
   Variable t : N.
 
   Definition blk_rsv (i : nat) : list nat :=
     map (fun a => (a - i * bs)%nat) (filter (fun a => Nat.eqb (a / bs) i) rsv).
 
-  Definition put_block (st : cstate) (i : nat) (b : block) : cstate :=
-    {| cs_blocks := set_nth (cs_blocks st) i b; cs_handles := cs_handles st |}.
-  Definition get_block (st : cstate) (i : nat) : block := nth i (cs_blocks st) (new_block 0 0).
+  Definition get_block (st : cstate) (i : nat) : option block := nth i (cs_blocks st) None.
+  Definition get_aff (st : cstate) (i : nat) : bool := nth i (cs_aff st) false.
+  Definition put_block (st : cstate) (i : nat) (b : option block) : cstate :=
+    {| cs_blocks := set_nth (cs_blocks st) i b; cs_aff := cs_aff st; cs_handles := cs_handles st |}.
+  Definition put_aff (st : cstate) (i : nat) (a : bool) : cstate :=
+    {| cs_blocks := cs_blocks st; cs_aff := set_nth (cs_aff st) i a; cs_handles := cs_handles st |}.
+  Definition put_handles (st : cstate) (hs : list (N * hmap)) : cstate :=
+    {| cs_blocks := cs_blocks st; cs_aff := cs_aff st; cs_handles := hs |}.
+
+  (* a block that has lost its affinity is deleted by the write that empties it *)
+  Definition store_after (st : cstate) (i : nat) (b' : block) : cstate :=
+    if negb (get_aff st i) && blk_empty b' then put_block st i None else put_block st i (Some b').
 
   (* autoAssign over the host's affine blocks, in List order *)
   Fixpoint auto_loop (idxs : list nat) (st : cstate) (h tag : N) (num : nat) (got : list nat) : cstate * list nat :=
@@ -459,12 +487,15 @@ Section Client.
     | [] => (st, got)
     | i :: rest =>
         if Nat.leb num (length got) then (st, got) else
-        match txn cd t (get_block st i) (TAuto (Some h) tag (num - length got) (blk_rsv i)) with
-        | (Some b', ResAuto ords) =>
-            auto_loop rest {| cs_blocks := set_nth (cs_blocks st) i b';
-                              cs_handles := hs_inc (cs_handles st) h i (N.of_nat (length ords)) |}
-                      h tag num (got ++ map (fun o => (i * bs + o)%nat) ords)
-        | _ => auto_loop rest st h tag num got
+        match get_aff st i, get_block st i with
+        | true, Some b =>
+          match txn cd t b (TAuto (Some h) tag (num - length got) (blk_rsv i)) with
+          | (Some b', ResAuto ords) =>
+              auto_loop rest (put_handles (put_block st i (Some b')) (hs_inc (cs_handles st) h i (N.of_nat (length ords))))
+                        h tag num (got ++ map (fun o => (i * bs + o)%nat) ords)
+          | _ => auto_loop rest st h tag num got
+          end
+        | _, _ => auto_loop rest st h tag num got
         end
     end.
 
@@ -474,13 +505,16 @@ Section Client.
   (* releaseIPsFromBlock for the options that fall into block i *)
   Definition release_block (st : cstate) (i : nat) (rs : list req) : cstate * (list nat * bool) :=
     let local := map (fun r => {| rq_ord := (rq_ord r - i * bs)%nat; rq_handle := rq_handle r; rq_seq := rq_seq r |}) rs in
-    match txn cd t (get_block st i) (TRelease local) with
-    | (_, ResRel _ _ EConflict) | (_, ResRel _ _ EOther) => (st, ([], false))
-    | (Some b', ResRel un cnt _) =>
-        ({| cs_blocks := set_nth (cs_blocks st) i b'; cs_handles := dec_all (cs_handles st) i cnt |},
-         (map (fun o => (i * bs + o)%nat) un, true))
-    | (None, ResRel un _ _) => (st, (map (fun o => (i * bs + o)%nat) un, true))
-    | _ => (st, ([], false))
+    match get_block st i with
+    | None => (st, (map rq_ord rs, true))        (* the block does not exist: every address is "not allocated" *)
+    | Some b =>
+      match txn cd t b (TRelease local) with
+      | (_, ResRel _ _ EConflict) | (_, ResRel _ _ EOther) => (st, ([], false))
+      | (Some b', ResRel un cnt _) =>
+          (put_handles (store_after st i b') (dec_all (cs_handles st) i cnt), (map (fun o => (i * bs + o)%nat) un, true))
+      | (None, ResRel un _ _) => (st, (map (fun o => (i * bs + o)%nat) un, true))
+      | _ => (st, ([], false))
+      end
     end.
 
   Fixpoint release_loop (idxs : list nat) (st : cstate) (rs : list req) (un rel : list nat) (e : err)
@@ -501,24 +535,42 @@ Section Client.
     match blks with
     | [] => st
     | i :: rest =>
-        match txn cd t (get_block st i) (TRbh h) with
-        | (Some b', ResCount n) =>
-            rbh_loop rest {| cs_blocks := set_nth (cs_blocks st) i b'; cs_handles := hs_dec (cs_handles st) h i (N.of_nat n) |} h
-        | _ => rbh_loop rest st h
+        match get_block st i with
+        | None => rbh_loop rest st h
+        | Some b =>
+          match txn cd t b (TRbh h) with
+          | (Some b', ResCount n) =>
+              rbh_loop rest (put_handles (store_after st i b') (hs_dec (cs_handles st) h i (N.of_nat n))) h
+          | _ => rbh_loop rest st h
+          end
         end
     end.
+
+  Definition all_owned (st : cstate) : bool := forallb (fun a => a) (cs_aff st).
 
   Definition cstep (st : cstate) (o : cop) : cstate * cres :=
     let nb := length (cs_blocks st) in
     match o with
     | CAuto h tag num =>
-        let '(st', got) := auto_loop (seq 0 nb) st h tag num [] in (st', CResIPs got ENone)
+        let '(st', got) := auto_loop (seq 0 nb) st h tag num [] in
+        (st', CResIPs got (if Nat.leb num (length got) || autoalloc then ENone else EOther))
     | CAssignIP h tag a =>
         let i := (a / bs)%nat in
-        match txn cd t (get_block st i) (TAssign (a - i * bs) (Some h) tag) with
-        | (Some b', _) => ({| cs_blocks := set_nth (cs_blocks st) i b'; cs_handles := hs_inc (cs_handles st) h i 1 |}, CResErr ENone)
-        | (None, ResErr e) => (st, CResErr e)
-        | _ => (st, CResErr EOther)
+        match get_block st i with
+        | Some b =>
+            if negb (get_aff st i) && strict then (st, CResErr EOther) else
+            match txn cd t b (TAssign (a - i * bs) (Some h) tag) with
+            | (Some b', _) => (put_handles (put_block st i (Some b')) (hs_inc (cs_handles st) h i 1), CResErr ENone)
+            | (None, ResErr e) => (st, CResErr e)
+            | _ => (st, CResErr EOther)
+            end
+        | None =>
+            (* claim the block again, then assign *)
+            match txn cd t (new_block bs (epoch + t)) (TAssign (a - i * bs) (Some h) tag) with
+            | (Some b', _) =>
+                (put_handles (put_aff (put_block st i (Some b')) i true) (hs_inc (cs_handles st) h i 1), CResErr ENone)
+            | _ => (st, CResErr EOther)
+            end
         end
     | CRelease rs => release_loop (seq 0 nb) st rs [] [] ENone
     | CRbh h =>
@@ -527,9 +579,22 @@ Section Client.
         | Some m => (rbh_loop (map fst m) st h, CResErr ENone)
         end
     | CGC i =>
-        match txn cd t (get_block st i) TGC with
-        | (Some b', _) => (put_block st i b', CResErr ENone)
-        | _ => (st, CResErr ENone)
+        match get_block st i with
+        | Some b => match txn cd t b TGC with
+                    | (Some b', _) => (put_block st i (Some b'), CResErr ENone)
+                    | _ => (st, CResErr ENone)
+                    end
+        | None => (st, CResErr ENone)
+        end
+    | CRelAff i must =>
+        (* releaseBlockAffinity: no affinity or no block -> nothing to do *)
+        match get_aff st i, get_block st i with
+        | true, Some b =>
+            let b1 := gc cd t b in
+            if must && negb (blk_empty b1) then (st, CResErr EOther)
+            else if blk_empty b1 then (put_aff (put_block st i None) i false, CResErr ENone)
+            else (put_aff (put_block st i (Some (persist b1))) i false, CResErr ENone)
+        | _, _ => (st, CResErr ENone)
         end
     end.
 End Client.
